@@ -33,6 +33,7 @@ pub fn run(prop: &str, opts: &Opts) -> bool {
         "c04feed" => c04::feed(opts),
         "fuzzseeds" => c04::fuzz_seeds(opts),
         "c05" => c05::run(opts),
+        "kemsearch" => c05::kem_search(opts),
         "c06" => c06::run(opts),
         "c07" => c07::run(opts),
         "c08" => c08::run(opts),
